@@ -102,7 +102,7 @@ def _run_batch(rep, batch, open_devs, fid_of):
             continue
         objs, refs = case["objs"], case["refs"]
         qualified = any(r["parts"] > 1 for r in refs) or any(r["sched"] > 0 for r in refs)
-        starts = [(o["file"], o["start"]) for o in objs]
+        starts = [(o["file"], o["start"]) for o in objs if o["kind"] != "Plain"]
         shared = len(set(starts)) < len(starts)
         _judge_part(rep, case, "xrefs", obs["xrefs"], results, devsets, xs, fid_of, nontrivial=qualified)
         _judge_part(rep, case, "rdict", obs["rdict"], results, devsets, ds, fid_of, nontrivial=shared and len(objs) >= 3)
@@ -125,7 +125,8 @@ def run(rep):
         "carrier grammar and renderer of vt/drive/procs.py: a Model without header and a Grp start where their first "
         "content starts, a Box has exactly the span of its Cell; offsets are counted while the text is written",
         "the scope provider resolves a (possibly qualified) name by the suffix of the package path and answers "
-        "Postponed as often as the schedule says; every round of the schedule resolves at least one reference",
+        "Postponed as often as the schedule says; every round of the schedule resolves at least one reference; "
+        "qualified names are also written with blanks around the dots (p2 . a), which belong to the reference text",
         "the rule dictionary's order is judged as a total order: later start first and, among spans starting "
         "together, the contained (shorter) one first -- the only order that is sorted by position as the shipped "
         "test_textx_tools_support requires and lists a span before every different span containing it",
@@ -136,10 +137,16 @@ def run(rep):
     scns = [s for s in scns if len(s["objs"]) >= 2]
     total = len(scns)
     if quick and len(scns) > 900:
-        # keep every scenario with references in the sample's favour
-        with_refs = [s for s in scns if s["refs"]]
-        without = [s for s in scns if not s["refs"]]
-        scns = rng.sample(with_refs, min(len(with_refs), 750)) + rng.sample(without, min(len(without), 150))
+        # the sample favours scenarios with references; every scenario in which three nested
+        # objects have the same span is kept
+        def triple(s):
+            spans = [(o["file"], o["start"], o["end"]) for o in s["objs"] if o["kind"] != "Plain"]
+            return any(spans.count(x) >= 3 for x in spans)
+        forced = [s for s in scns if triple(s)]
+        rest = [s for s in scns if not triple(s)]
+        with_refs = [s for s in rest if s["refs"]]
+        without = [s for s in rest if not s["refs"]]
+        scns = forced + rng.sample(with_refs, min(len(with_refs), 700)) + rng.sample(without, min(len(without), 120))
     rep.exhaustive = len(scns) == total
     nrand = 250 if quick else 3000
     rep.bounds["scenarios"] = dict(enumerated=total, replayed=len(scns), random=nrand)
@@ -151,7 +158,7 @@ def run(rep):
             case["procs"], case["repl"] = [], []
             batch.append((case, D.load(case, work, tools=True)))
         for k in range(nrand):
-            s = D.random_scenario(rng, max_objs=rng.randint(4, 14), nfiles=rng.choice([1, 1, 2, 3]),
+            s = D.random_scenario(rng, max_objs=rng.randint(4, 14), nfiles=rng.choice([1, 2, 2, 3]),
                                   max_postpone=rng.choice([0, 1, 2, 3]))
             case = D.render(s, rng)
             case["procs"], case["repl"] = [], []
